@@ -5,7 +5,7 @@ CONSTANTS
   LegacyBreak = FALSE
 VIEW TraceView
 CONSTRAINT HighWater
-INVARIANTS AtMostOnce ExactlyOnce Unbiased KeptRowsFactorGE1 NoSampleAgentKept FitsNothingSampled FairShare
+INVARIANTS AtMostOnce ExactlyOnce TrUnbiased KeptRowsFactorGE1 NoSampleAgentKept FitsNothingSampled FairShare
   FixedWithinBudget FairShareRemaining SelectorConsistent TrKeptWithinBudget TrMonotone
   QuotaProportional QuotaFitIsSize TrQuotaWithinTotal
 POSTCONDITION TraceAccepted
